@@ -161,4 +161,28 @@ def neighbours (t : Table) : List Addr := (t.filter (fun ke => ke.2.isNeighbour)
 
 def neighboursEager (c : Cfg) (t : Table) (now : Nat) : List Addr := neighbours (refresh c t now)
 
+/-! ## Well-formed configuration: `itsGnDPLLength > 0`
+
+`dplPush` above is the ring for `L > 0`.  Python builds `deque(maxlen=L)`; for `L = 0` the test
+`len(self.dpl_deque) == self.dpl_deque.maxlen` holds on the EMPTY deque and `popleft()` raises `IndexError` - every
+multi-hop reception then dies in `check_duplicate_sn`, whereas `dplPush 0` would grow without bound.  `dplPushE` is the
+Python behaviour including that branch; all history theorems about the duplicate list assume `Cfg.WF`
+(`Props.C08.dplLen_default_wf`: the MIB default, regenerated from the source on every run, is positive). -/
+
+inductive DplErr | indexError
+deriving DecidableEq, Repr
+
+/-- `check_duplicate_sn`, non-duplicate branch, exactly as Python executes it on a `deque(maxlen=L)` -/
+def dplPushE (L : Nat) (d : List Nat) (sn : Nat) : Except DplErr (List Nat) :=
+  if d.length == L then
+    match d with
+    | [] => .error .indexError            -- `popleft()` on an empty deque (only possible for L = 0)
+    | _ :: r => .ok (r ++ [sn])
+  else .ok (d ++ [sn])
+
+/-- the configuration is well-formed: the duplicate packet list has room for at least one sequence number -/
+def Cfg.WF (c : Cfg) : Prop := 0 < c.dplLen
+
+instance (c : Cfg) : Decidable c.WF := by unfold Cfg.WF; infer_instance
+
 end FlexModel.Geo
